@@ -142,6 +142,7 @@ fn handle(req: &serde_json::Value) -> serde_json::Value {
                 if let Program::Module(m) = &program {
                     if let Ok(code) = print(&cm, m) { out.insert("code_twice".into(), code.into()); }
                 }
+                out.insert("post_twice".into(), format!("{:?}", program).into());
             }
         }
     });
